@@ -134,6 +134,9 @@ def check_C16(ctx):
         obs = ctx.run_cases(cases)
         ctx.validate(obs)
         ctx.notes.append("%s x the string-filter call grid: %d cases" % (what, len(cases)))
+    # numbers (also floats Go prints in exponent notation), booleans and nil as receivers: the text they print as
+    scases, _ = ctx.tlc_mc("MC_C16S", mc_cfg({}, ["TextDecided", "ReceiverAsText", "EmitCase"]), timeout=1800)
+    ctx.validate(ctx.run_cases(scases))
     omni(ctx, offset=16)
     return finish(ctx, rule="every (string, string-filter call) of the bounded grids of MC_C16; TLC checks the algebraic laws "
                             "of the statement on LqFilters for each, the implementation renders {{ s | f: args }}#{{ s }} and "
